@@ -181,4 +181,23 @@ PROPS = {
             "set patterns and patterns with two rests are not generated (documented as unsupported; C10 checks that they are rejected without a crash)",
         ],
     },
+    "C10": {
+        "level": "exploration",
+        "technique": "property-based testing / fuzzing (rapid): ill-typed generated programs, operators over arbitrary data values, every safe stdlib function on generated arguments, and byte-level edits of programs and hostile constants; oracle = outcome is a value or an ordinary, renderable error",
+        "level_text": "Generated-input search in four modes: (1) typed programs with 15-60% of operands replaced by operands of another type; (2) every binary/unary operator applied to "
+                      "data values of every kind and representation; (3) every function reachable in the safe standard library tuple (except os/log/net/arrai/deprecated and the recursion "
+                      "combinators) applied, curried up to three times, to generated arguments; (4) program texts and ~55 hostile constants with random byte edits. A case fails when "
+                      "compile+evaluate panics, does not return within 20 s, returns a value that cannot be printed, or returns an error that cannot be rendered. "
+                      "Each distinct panicking function is one known finding (signature panic@<function>); a panic in any other function is a violation.",
+        "level_note": "Trusted: recover()+stack parsing in obs, the 20 s bound (three orders of magnitude above normal), rapid. wbnf parse errors are not rendered during the search (rendering "
+                      "can take exponential time/memory inside the third-party library; recorded as finding hang@wbnf.ParseError.Error and exercised only by its witness). Native go test -fuzz is not used: "
+                      "the first crasher stops it and the tree has dozens of known crashers.",
+        "tests": [{"name": "TestC10", "quick": 1500, "thorough": 30000}],
+        "rule": "every generated case is non-trivial by construction (ill-typed operand, stdlib call, arbitrary operands or edited text). Distinct = distinct program text.",
+        "assumptions": COMMON_ASSUMPTIONS + [
+            "programs are non-recursive (no let rec, no //fn.fix): unbounded recursion overflows the Go stack by design of the interpreter",
+            "imports are unavailable (empty in-memory filesystems)",
+        ],
+        "timeout": {"quick": 1500, "thorough": 10800},
+    },
 }
